@@ -231,6 +231,11 @@ def resolve_unwindset(h, workdir):
     pairs, used = [], []
     for spec in h.unwindset.split(";"):
         rx, n = spec.rsplit(":", 1)
+        if rx.startswith("="):
+            # literal CBMC loop label (loops of CBMC's built-in library, e.g. memcmp.0, are not listed by --show-loops)
+            pairs.append(f"{rx[1:].strip()}:{n.strip()}")
+            used.append((rx, n, True))
+            continue
         hit = False
         for label, file, line, fn in loops:
             if re.search(rx, f"{label} {fn} {file}"):
